@@ -390,6 +390,13 @@ pub struct RunSpec {
     /// stdout/stderr of the program are a pseudo-terminal (via script(1)) instead of a file
     #[serde(default, skip_serializing_if = "is_false")]
     pub tty: bool,
+    /// how the two directory arguments are spelled: 0 absolute, 1 relative to the working directory,
+    /// 2 absolute with a trailing slash, 3 relative with a leading "./" and a trailing slash
+    #[serde(default, skip_serializing_if = "is_zero_u8")]
+    pub path_style: u8,
+    /// the dump folder is a sub-directory of the data directory
+    #[serde(default, skip_serializing_if = "is_false")]
+    pub dump_in_data: bool,
 }
 fn yes() -> bool {
     true
@@ -411,6 +418,8 @@ impl RunSpec {
             verbosity: 0,
             plain_build: false,
             tty: false,
+            path_style: 0,
+            dump_in_data: false,
         }
     }
 }
